@@ -400,7 +400,9 @@ func (m *MonC17) AfterBlock(w *World, b *BlockCtx) {
 	if len(b.Prev.Cands) > 100 || len(b.Cur.Cands) > 100 {
 		w.Probe("c17_over_100_candidates")
 	}
-	if len(b.Cur.Cands) > 100 && uint64(b.Height)%w.Sc.Node.Period == 0 {
+	// (not in the first block: InitChain re-elects validators after its commit, so the validator set in
+	// force there is not the exported one - the same exclusion as for restart twins and probes)
+	if len(b.Cur.Cands) > 100 && uint64(b.Height)%w.Sc.Node.Period == 0 && b.Height != w.Sc.InitialH {
 		// whoever still ranks beyond the first 100 must have been a validator during this block
 		for _, c := range b.Cur.Cands {
 			if b.Prev.Vals[c.PubKey] != nil {
@@ -438,7 +440,7 @@ func (m *MonC17) AfterBlock(w *World, b *BlockCtx) {
 // limits checks the 100-candidate and 1000-delegation rules at recalculation blocks.
 func (m *MonC17) limits(w *World, b *BlockCtx) {
 	h := uint64(b.Height)
-	if h%w.Sc.Node.Period != 0 {
+	if h%w.Sc.Node.Period != 0 || b.Height == w.Sc.InitialH {
 		return
 	}
 	unbondP := types.GetUnbondPeriod()
